@@ -58,6 +58,19 @@ JOB = 'sim.props.c20:job'
 # --------------------------------------------------------------------------
 # documents
 
+FANCY_NAMES = ['d0', 'd1.v2', 'd2 x']
+
+
+def docname(i, fancy=False):
+    """Job name of document i (file <name>.tex, label file <name>.paux)."""
+    return FANCY_NAMES[i % 3] if fancy else 'd%d' % i
+
+
+def doc_of_label(lab):
+    """'d<i>L<k>' -> i (labels are globally distinct, so a label identifies its document)"""
+    return int(lab[1:].split('L')[0])
+
+
 def xr_prefix(mode, j):
     return 'X%d-' % j if mode in ('prefix', 'both') else ''
 
@@ -66,7 +79,7 @@ def xr_url(mode, j):
     return 'http://ex.org/d%d/' % j if mode in ('url', 'both') else ''
 
 
-def doc_source(i, st, m, use_xr):
+def doc_source(i, st, m, use_xr, fancy_names=False):
     """st = {'items': [[kind, k, version], ...]}; labels d<i>L<k>.  use_xr: False | 'plain' | 'prefix' | 'url' | 'both'."""
     lines = ['\\documentclass{article}']
     if use_xr:
@@ -74,7 +87,7 @@ def doc_source(i, st, m, use_xr):
         for j in range(m):
             if j != i:
                 pre, url = xr_prefix(use_xr, j), xr_url(use_xr, j)
-                lines.append('\\externaldocument%s{d%d}%s' % ('[%s]' % pre if pre else '', j, '[%s]' % url if url else ''))
+                lines.append('\\externaldocument%s{%s}%s' % ('[%s]' % pre if pre else '', docname(j, fancy_names), '[%s]' % url if url else ''))
     lines.append('\\begin{document}')
     for kind, k, ver in st['items']:
         lab = 'd%dL%d' % (i, k)
@@ -82,6 +95,13 @@ def doc_source(i, st, m, use_xr):
             deco = ['', ' caf\\\'e \\textbf{bold}', ' $x^2$ math', ' na\u00efve \u00fc', ' a \\& b'][(k + ver) % 5] if st.get('fancy') else ''
             lines.append('\\section{T%dx%dv%d%s}\\label{%s}' % (i, k, ver, deco, lab))
             lines.append('Body b%dx%d.' % (i, k))
+        elif kind == 'emptysection':
+            lines.append('\\section{}\\label{%s}' % lab)
+            lines.append('Body b%dx%d v%d.' % (i, k, ver))
+        elif kind == 'figure':
+            lines.append('\\begin{figure}Fig f%dx%d\\caption{C%dx%dv%d}\\label{%s}\\end{figure}' % (i, k, i, k, ver, lab))
+        elif kind == 'item':
+            lines.append('\\begin{enumerate}\\item\\label{%s} I%dx%dv%d\\end{enumerate}' % (lab, i, k, ver))
         else:
             lines.append('Before e%dx%d.' % (i, k))
             lines.append('\\begin{equation}\\label{%s} x_{%d}=%d \\end{equation}' % (lab, k, ver))
@@ -93,14 +113,14 @@ def doc_source(i, st, m, use_xr):
 
 def expected_numbers(st):
     out = {}
-    ns = ne = 0
+    n = {'section': 0, 'equation': 0, 'figure': 0}
     for kind, k, ver in st['items']:
-        if kind == 'section':
-            ns += 1
-            out[k] = (str(ns), ver, kind)
-        else:
-            ne += 1
-            out[k] = (str(ne), ver, kind)
+        if kind == 'item':
+            out[k] = ('1', ver, kind)           # every generated item is the first of its own list
+            continue
+        c = 'section' if kind in ('section', 'emptysection') else kind
+        n[c] += 1
+        out[k] = (str(n[c]), ver, kind)
     return out
 
 
@@ -118,7 +138,7 @@ def generate(seed, tier):
     for i in range(m):
         items = []
         for k in range(r.randint(1, 4)):
-            items.append([r.choice(['section', 'section', 'equation']), k, 0])
+            items.append([r.choice(['section', 'section', 'equation', 'section', 'equation', 'figure', 'item', 'emptysection']), k, 0])
         docs.append({'items': items, 'refs': [], 'next': len(items), 'fancy': r.random() < 0.4})
     for i in range(m):
         for j in range(m):
@@ -166,7 +186,7 @@ def generate(seed, tier):
             if rf.random() < 0.7:       # a corruption is only a fault once somebody reads the file
                 ops.append({'op': 'RUN', 'doc': ro.randrange(8), 'r': ro.randrange(2)})
     return {'property': PID, 'seed': seed,
-            'swarm': {'m': m, 'renderers': rends, 'docs': docs, 'xr': use_xr, 'enabled': enabled,
+            'swarm': {'m': m, 'renderers': rends, 'docs': docs, 'xr': use_xr, 'enabled': enabled, 'fancy_names': r.random() < 0.3,
                       'fault_free': fault_free},
             'ops': ops}
 
@@ -394,12 +414,13 @@ class Sim(object):
         self.m = sw['m']
         self.rends = sw['renderers']
         self.xr = sw.get('xr', False)
+        self.fancy = bool(sw.get('fancy_names'))
         self.root = root
         self.docs = [dict(items=[list(x) for x in d['items']], refs=[list(x) for x in d['refs']], next=d['next'], fancy=d.get('fancy', False))
                      for d in sw['docs']]
         # model: per file -> {'state': 'clean'|'dirty'|'absent', 'cands': [blocks...], 'fuzzy': bool}
         # blocks = {R: {label: (ref, title, url)}}
-        self.files = dict(('d%d.paux' % i, {'state': 'absent', 'cands': [{}], 'fuzzy': False}) for i in range(self.m))
+        self.files = dict((self.jn(i) + '.paux', {'state': 'absent', 'cands': [{}], 'fuzzy': False}) for i in range(self.m))
         self.info = {}
         self.fired = {}
         self.configured = {}
@@ -415,13 +436,19 @@ class Sim(object):
         for i in range(self.m):
             self.write_doc(i)
 
+    def jn(self, i):
+        return docname(i, self.fancy)
+
+    def pauxof(self, lab):
+        return self.jn(doc_of_label(lab)) + '.paux'
+
     # -- disk
     def path(self, name):
         return os.path.join(self.root, name)
 
     def write_doc(self, i):
-        with open(self.path('d%d.tex' % i), 'w') as f:
-            f.write(doc_source(i, self.docs[i], self.m, self.xr))
+        with open(self.path(self.jn(i) + '.tex'), 'w') as f:
+            f.write(doc_source(i, self.docs[i], self.m, self.xr, self.fancy))
 
     def violation(self, sig, detail):
         self.viol.append({'sig': sig, 'detail': detail})
@@ -433,7 +460,7 @@ class Sim(object):
     def lifetime(self, i, R, crash=None):
         setup = {'root': self.root, 'cwd': self.root, 'clock': self.clock, 'crash': crash,
                  'env': {'environ': {'HOME': self.root, 'TEXINPUTS': self.root}}}
-        return lifetimes.run_lifetime(JOB, {'file': 'd%d.tex' % i, 'renderer': R}, setup, timeout=120)
+        return lifetimes.run_lifetime(JOB, {'file': self.jn(i) + '.tex', 'renderer': R}, setup, timeout=120)
 
     # -- ops
     def run(self, ops):
@@ -462,7 +489,7 @@ class Sim(object):
                 self.docs[j]['refs'] = [x for x in self.docs[j]['refs'] if not (x[0] == i and x[1] == it[1])]
                 self.write_doc(j)
         elif how == 'add':
-            d['items'].append([['section', 'equation'][op['k'] % 2], d['next'], 0])
+            d['items'].append([['section', 'equation', 'figure', 'item'][op['k'] % 4], d['next'], 0])
             for j in range(self.m):
                 if j != i:
                     self.docs[j]['refs'].append([i, d['next']])
@@ -478,7 +505,7 @@ class Sim(object):
 
     def op_corrupt(self, k, op):
         i = op['doc'] % self.m
-        name = 'd%d.paux' % i
+        name = self.jn(i) + '.paux'
         p = self.path(name)
         kind = op['kind']
         self.count(self.configured, kind)
@@ -536,7 +563,7 @@ class Sim(object):
     def op_run(self, k, op):
         i = op['doc'] % self.m
         R = self.rends[op['r'] % 2]
-        name = 'd%d.paux' % i
+        name = self.jn(i) + '.paux'
         crash = None
         self.clock += 60
         if op.get('crash'):
@@ -585,7 +612,7 @@ class Sim(object):
     # -- dense idle-corruption sweep of one saved file through the three readers (API level, one lifetime)
     def op_idle_sweep(self, k, op):
         i = op['doc'] % self.m
-        name = 'd%d.paux' % i
+        name = self.jn(i) + '.paux'
         fm = self.files[name]
         if fm['state'] != 'clean' or not os.path.exists(self.path(name)):
             return
@@ -593,7 +620,7 @@ class Sim(object):
         blocks = fm['cands'][0]
         args = {'file': name, 'renderer': R, 'kind': op['kind'], 'lo': op.get('lo', 0), 'hi': op.get('hi'),
                 'step': op.get('step', 1), 'want': dict((lab, list(v)) for lab, v in blocks.get(R, {}).items()),
-                'others': sorted(x for x in blocks if x != R), 'reader_doc': 'd%d' % ((i + 1) % self.m),
+                'others': sorted(x for x in blocks if x != R), 'reader_doc': self.jn((i + 1) % self.m),
                 'bits': op.get('bits')}
         setup = {'root': self.root, 'cwd': self.root, 'clock': self.clock,
                  'env': {'environ': {'HOME': self.root, 'TEXINPUTS': self.root}}}
@@ -627,7 +654,7 @@ class Sim(object):
         if st != 'ok' or not out.get('ok'):
             return None         # the job fails even without a crash: judged by the fault-free path
         log = out['fs']['log']
-        name = 'd%d.paux' % i
+        name = self.jn(i) + '.paux'
         marks = out['fs']['marks']
         paux = [e for e in log if e[2] and name in str(e[2]) and e[0] >= marks.get('persist', 0)]
         render = [e for e in log if marks.get('render', 0) <= e[0] < marks.get('persist', len(log))]
@@ -744,7 +771,10 @@ class Sim(object):
             if not isinstance(lab, str) or not lab.startswith('d') or 'L' not in lab:
                 byfile.setdefault('?', {})[lab] = d
                 continue
-            byfile.setdefault('d%s.paux' % lab[1:].split('L')[0], {})[lab] = d
+            try:
+                byfile.setdefault(self.pauxof(lab), {})[lab] = d
+            except ValueError:
+                byfile.setdefault('?', {})[lab] = d
         for fname, fm in self.files.items():
             if fname == name:
                 got = byfile.get(fname, {})
@@ -793,12 +823,15 @@ class Sim(object):
                 lab = target['id']
                 if not lab.startswith('d') or 'L' not in lab:
                     continue
-                fname = 'd%s.paux' % lab[1:].split('L')[0]
+                try:
+                    fname = self.pauxof(lab)
+                except ValueError:
+                    continue
                 fm2 = self.files.get(fname)
                 if fm2 is None or fname == name or fm2['fuzzy']:
                     continue
                 gotv = (target['ref'], target['title'], target['url']) if target['kind'] == 'dict' else None
-                base = xr_url(self.xr, int(lab[1:].split('L')[0]))
+                base = xr_url(self.xr, doc_of_label(lab))
                 cands = [c.get(R, {}).get(lab) for c in fm2['cands']]
                 cands = [(v[0], v[1], (base + v[2]) if (base and v[2] is not None) else v[2]) if v is not None else None for v in cands]
                 if gotv not in cands:
